@@ -239,7 +239,7 @@ class UUID:
         # Register this object in the class registry, and update the entry's name if
         # it wasn't set already
         for uuid in self.UUIDS:
-            if self == uuid:
+            if self.uuid_bytes == uuid.uuid_bytes:
                 if uuid.name is None:
                     uuid.name = self.name
                 return uuid
